@@ -1,5 +1,10 @@
-"""C16: grid and combinatorial enumerations are exact bijections in the stated order."""
-import itertools, math
+"""C16: grid and combinatorial enumerations are exact bijections in the stated order.
+
+All jitted kernels that read or write arrays through computed indices (simplex_grid, next_k_array,
+k_array_rank_jit, cartesian/_repeat_1d, _cartesian_index, _cartesian_nearest_indices) are executed in a second
+interpreter under NUMBA_BOUNDSCHECK=1 (an out-of-bounds access is an IndexError instead of heap corruption; a hard
+crash of that interpreter is attributed to the job it was running).  comb_jit (scalar arithmetic) runs in-process."""
+import sys, os, json, itertools, math, subprocess, tempfile
 import numpy as np
 from common import *
 
@@ -8,19 +13,202 @@ INTP_MAX = 2**63 - 1
 FINISH = dict(level="proof", technique_note=(
     "Coq theorems (coq/C16/Props.v) about the executable model coq/C16/Model.v; model tied to /repo by "
     "evaluating it with vm_compute on the same inputs as the implementation (exhaustive small scopes + selected huge "
-    "arguments); independent itertools/math.comb oracle on the implementation's output. non-trivial = distinct input "
-    "with a non-degenerate answer (k>=2 for comb, >=2 rows for grids)"))
+    "arguments; array kernels run under NUMBA_BOUNDSCHECK=1 in a second interpreter); independent itertools/math.comb "
+    "oracle on the implementation's output. non-trivial = distinct input with a non-degenerate answer (k>=2 for comb, "
+    ">=2 rows for grids)"))
+
+
+# ------------------------------------------------------------------ implementation calls (worker side)
+def impl_job(kind, arg):
+    from quantecon.util.combinatorics import next_k_array, k_array_rank, k_array_rank_jit
+    from quantecon._gridtools import (simplex_grid, simplex_index, num_compositions, num_compositions_jit,
+                                      cartesian, mlinspace, cartesian_nearest_index, _cartesian_index)
+    if kind == "simplex":
+        m, n = arg
+        g = simplex_grid(m, n)
+        rows = [[int(x) for x in r] for r in g]
+        idxs = [int(simplex_index(np.array(r), m, n)) for r in rows]
+        return {"rows": rows, "idxs": idxs, "L": int(num_compositions(m, n)), "Lj": int(num_compositions_jit(m, n))}
+    if kind == "walk":
+        n, k = arg
+        a = np.arange(k)
+        walk, ranks, ranks_jit = [], [], []
+        while a[-1] < n:
+            walk.append([int(x) for x in a])
+            ranks.append(int(k_array_rank(a)))
+            ranks_jit.append(int(k_array_rank_jit(a)))
+            next_k_array(a)
+            if len(walk) > 2000:
+                break
+        return {"walk": walk, "ranks": ranks, "ranks_jit": ranks_jit}
+    if kind == "nkstep":
+        arr = np.array(arg, dtype=np.int64)
+        rj = int(k_array_rank_jit(arr))
+        return {"rj": rj, "nxt": [int(x) for x in next_k_array(arr.copy())]}
+    if kind == "cartesian":
+        nodes, order = arg
+        out = cartesian([np.array(p) for p in nodes], order=order)
+        return {"rows": [[int(x) for x in r] for r in out]}
+    if kind == "mlinspace":
+        a, b, nums, order = arg
+        return {"rows": mlinspace(a, b, nums, order=order).tolist()}
+    if kind == "cindex":
+        ind, nums = arg
+        return {"idx": int(_cartesian_index(np.array(ind, dtype=np.intp), np.array(nums, dtype=np.intp)))}
+    if kind == "nearest":
+        nodes, x, order = arg
+        idx = int(cartesian_nearest_index(np.array(x), tuple(np.array(g) for g in nodes), order=order))
+        return {"idx": idx}
+    raise ValueError(kind)
+
+
+def worker(fin, fout):
+    jobs = json.load(open(fin))
+    with open(fout, "a") as f:
+        for kind, arg in jobs:
+            try:
+                r = ["ok", impl_job(kind, arg)]
+            except Exception as e:            # IndexError under NUMBA_BOUNDSCHECK, ValueError ...
+                r = ["err", "%s: %s" % (type(e).__name__, str(e)[:200])]
+            f.write(json.dumps(r) + "\n")
+            f.flush()
+    return 0
+
+
+def start_jobs(ctx, jobs, skip=0, tag=0):
+    env = dict(os.environ, NUMBA_BOUNDSCHECK="1", NUMBA_CACHE_DIR=os.path.join(VERIF, ".cache", "numba_boundscheck"))
+    fin, fout = os.path.join(ctx.jobdir, "in%d.json" % tag), os.path.join(ctx.jobdir, "out%d.jsonl" % tag)
+    json.dump(jobs[skip:], open(fin, "w"))
+    open(fout, "w").close()
+    p = subprocess.Popen([sys.executable, os.path.abspath(__file__), "--worker", fin, fout], env=env,
+                         stdout=subprocess.PIPE, stderr=subprocess.STDOUT)
+    return p, fout
+
+
+def collect_jobs(ctx, jobs, started):
+    """Collect the second interpreter (NUMBA_BOUNDSCHECK=1); a hard crash is attributed to the job being run and the
+    interpreter is restarted behind it.  One ["ok", result] / ["err", text] / ["crash", text] per job."""
+    results, restarts = [], 0
+    p, fout = started
+    while True:
+        try:
+            out, _ = p.communicate(timeout=1500)
+            rc, out = p.returncode, out.decode("utf-8", "replace")
+        except subprocess.TimeoutExpired:
+            p.kill()
+            rc, out = -9, "timeout"
+        results += [json.loads(l) for l in open(fout) if l.strip()]
+        if len(results) >= len(jobs) or restarts >= 8:
+            break
+        results.append(["crash", "interpreter died (rc=%s): %s" % (rc, out[-300:])])
+        restarts += 1
+        if len(results) >= len(jobs):
+            break
+        p, fout = start_jobs(ctx, jobs, skip=len(results), tag=restarts)
+    ok = len(results) == len(jobs)
+    ctx.obligations.append({"name": "NUMBA_BOUNDSCHECK=1 interpreter processed every job", "ok": ok,
+                            "detail": "%d jobs, %d restarts" % (len(jobs), restarts)})
+    while len(results) < len(jobs):
+        results.append(["crash", "not run"])
+    return results
+
+
+def bad_result(ctx, kind, inp, res):
+    """An exception or crash of the implementation on a valid input is a violation with that input."""
+    if res[0] == "ok":
+        return False
+    ctx.fail(kind + "_raises", "implementation raised / crashed on a valid input: " + res[1][:200], inp, res[1][:300], None)
+    ctx.count("impl_error:" + kind)
+    return True
 
 
 def run(ctx):
     from quantecon.util.numba import comb_jit
-    from quantecon.util.combinatorics import next_k_array, k_array_rank, k_array_rank_jit
-    from quantecon._gridtools import (simplex_grid, simplex_index, num_compositions, num_compositions_jit,
-                                      cartesian, mlinspace, cartesian_nearest_index, _cartesian_index)
     thorough = ctx.tier == "thorough"
+    rng = ctx.rng
+
+    # ================= inputs of the array kernels (generated first, executed in the second interpreter)
+    jobs = []
+    nmax = 10 if thorough else 8
+    walk_in = [(n, k) for n in range(1, nmax + 1) for k in range(1, n + 1)]
+    jobs += [("walk", list(t)) for t in walk_in]
+    step_in = []
+    for _ in range(300 if thorough else 120):
+        k = rng.randrange(1, 7)
+        top = rng.choice([12, 60, 2**20, 2**40])
+        a = sorted(rng.sample(range(top), k))
+        if rng.random() < 0.5:   # plant a run at the start so the inner loop executes
+            r = rng.randrange(1, k + 1)
+            a = list(range(a[0], a[0] + r)) + [x + a[0] + r + 1 for x in a[r:]]
+            a = sorted(set(a))
+        step_in.append(a)
+    for k in range(1, 7):         # full runs (every position is reset) and a gap behind a run of each length
+        for s in (0, 1, 5):
+            step_in.append(list(range(s, s + k)))
+            for r in range(1, k):
+                step_in.append(list(range(s, s + r)) + [s + r + 1 + j * 2 for j in range(k - r)])
+    jobs += [("nkstep", a) for a in step_in]
+    mmax, nmax2 = (6, 8) if thorough else (5, 6)
+    simplex_in = [(m, n) for m in range(1, mmax + 1) for n in range(0, nmax2 + 1)]
+    jobs += [("simplex", list(t)) for t in simplex_in]
+    dmax, pmax = (4, 5) if thorough else (3, 4)
+    shapes_all = [s for d in range(1, dmax + 1) for s in itertools.product(range(1, pmax + 1), repeat=d)]
+    if not thorough:
+        shapes_all = [s for s in shapes_all if rng.random() < 0.6 or len(s) <= 2]
+    cart_in = []
+    for shp in shapes_all:
+        nodes = [sorted(rng.sample(range(-20, 21), s)) for s in shp]
+        for order in "CF":
+            cart_in.append((nodes, order))
+    jobs += [("cartesian", [nodes, order]) for nodes, order in cart_in]
+    ml_in = []
+    for _ in range(20):
+        d = rng.randrange(1, 4)
+        nums = [rng.choice([1, 2, 3, 5]) for _ in range(d)]
+        a = [rng.randrange(-4, 4) for _ in range(d)]
+        b = [a[i] + (nums[i] - 1) * rng.choice([1, 2, 4]) if nums[i] > 1 else a[i] for i in range(d)]
+        for order in "CF":
+            ml_in.append((a, b, nums, order))
+    jobs += [("mlinspace", list(t)) for t in ml_in]
+    ci_in = []
+    for _ in range(400 if thorough else 150):
+        d = rng.randrange(1, 6)
+        nums = [rng.choice([1, 2, 3, 4, 7]) for _ in range(d)]
+        mode = rng.randrange(4)
+        ind = [0 if mode == 0 else (n - 1 if mode == 1 else rng.randrange(n)) for n in nums]
+        ci_in.append((ind, nums))
+    jobs += [("cindex", [ind, nums]) for ind, nums in ci_in]
+    near_in = []
+    for _ in range(700 if thorough else 250):
+        d = rng.randrange(1, 5 if thorough else 4)
+        nodes = []
+        for _i in range(d):
+            s = rng.randrange(1, 6)
+            pts = sorted(rng.sample(range(-16, 17), s))
+            nodes.append([p / 4.0 for p in pts])
+        x = []
+        for g in nodes:
+            mode = rng.randrange(5)
+            if mode == 0:
+                x.append(rng.choice(g))
+            elif mode == 1 and len(g) > 1:
+                i = rng.randrange(len(g) - 1)
+                x.append((g[i] + g[i + 1]) / 2)           # exactly on a midpoint
+            elif mode == 2:
+                x.append(g[0] - rng.randrange(0, 3) / 8.0)
+            elif mode == 3:
+                x.append(g[-1] + rng.randrange(0, 3) / 8.0)
+            else:
+                x.append(rng.randrange(-160, 161) / 32.0)
+        for order in "CF":
+            near_in.append((nodes, x, order))
+    jobs += [("nearest", [nodes, x, order]) for nodes, x, order in near_in]
+    ctx.jobdir = tempfile.mkdtemp(prefix="c16_", dir=ctx.work)
+    started = start_jobs(ctx, jobs)          # runs while the proofs are being checked
+
     ctx.proofs(["C16/Props.v", "C16/PropsTie.v"])
 
-    # ---------------- comb_jit
+    # ================= comb_jit (in-process)
     Ns = list(range(0, 71 if thorough else 48))
     pairs = [(N, k) for N in Ns for k in range(-1, N + 2)]
     huge = [2**31 - 1, 2**31, 2**32 + 5, 3037000499, 3037000500, 2**40, 2**62, 2**62 + 12345, INTP_MAX - 1, INTP_MAX]
@@ -28,14 +216,14 @@ def run(ctx):
         for k in [0, 1, 2, 3, 4, 5, 7, 20, 33, 34, N - 3, N - 2, N - 1, N]:
             pairs.append((N, k))
     for _ in range(400 if thorough else 150):
-        N = ctx.rng.choice([ctx.rng.randrange(60, 200), ctx.rng.randrange(200, 5000), ctx.rng.randrange(2**20, 2**50)])
-        k = ctx.rng.choice([ctx.rng.randrange(0, 40), N - ctx.rng.randrange(0, 40)])
+        N = rng.choice([rng.randrange(60, 200), rng.randrange(200, 5000), rng.randrange(2**20, 2**50)])
+        k = rng.choice([rng.randrange(0, 40), N - rng.randrange(0, 40)])
         pairs.append((N, max(-1, k)))
     pairs = sorted(set(pairs))
     cases = []
     for N, k in pairs:
         r = int(comb_jit(N, k))
-        cases.append(tup(zlit(N), zlit(k), zlit(r)) )
+        cases.append(tup(zlit(N), zlit(k), zlit(r)))
         ctx.case(("comb", N, k), nontrivial=(2 <= k <= N - 2), sample={"comb_jit": [N, k], "impl": r})
         ctx.count("comb_jit:" + ("zero" if r == 0 else "nonzero"))
         # oracle: exact binomial, or 0 exactly when out of range / some product of the multiplicative formula overflows
@@ -56,30 +244,27 @@ def run(ctx):
         ctx.mismatch("C16.Model.comb_jit vs util.numba.comb_jit", {"N": N, "k": k}, int(comb_jit(N, k)),
                      ctx.coq_eval(IMPORTS, "comb_jit %s %s" % (zlit(N), zlit(k))))
 
-    # ---------------- next_k_array walk + ranks
-    nmax = 10 if thorough else 8
+    results = collect_jobs(ctx, jobs, started)
+    by_kind = {}
+    for (kind, _arg), res in zip(jobs, results):
+        by_kind.setdefault(kind, []).append(res)
+
+    # ================= next_k_array walk + ranks
     cases, meta = [], []
-    for n in range(1, nmax + 1):
-        for k in range(1, n + 1):
-            a = np.arange(k)
-            walk, ranks, ranks_jit = [], [], []
-            while a[-1] < n:
-                walk.append([int(x) for x in a])
-                ranks.append(int(k_array_rank(a)))
-                ranks_jit.append(int(k_array_rank_jit(a)))
-                next_k_array(a)
-                if len(walk) > 2000:
-                    break
-            cases.append(tup(zlit(n), zlit(k), zlist2(walk), zlist(ranks), zlist(ranks_jit)))
-            meta.append((n, k))
-            ctx.case(("walk", n, k), nontrivial=(len(walk) >= 2), sample={"next_k_array walk": [n, k], "first": walk[:3]})
-            ctx.count("walk:len=%d" % min(len(walk), 50) if len(walk) < 5 else "walk:len>=5")
-            # oracle: all k-subsets exactly once, in colexicographic (combinatorial number system) order
-            exp = sorted(itertools.combinations(range(n), k), key=lambda t: t[::-1])
-            if [tuple(w) for w in walk] != exp:
-                ctx.fail("next_k_array_walk", "walk is not all k-subsets once in colex order", {"n": n, "k": k}, walk[:10], exp[:10])
-            if ranks != list(range(len(exp))) or ranks_jit != ranks:
-                ctx.fail("k_array_rank", "rank is not the position in the walk", {"n": n, "k": k}, [ranks[:10], ranks_jit[:10]], None)
+    for (n, k), res in zip(walk_in, by_kind["walk"]):
+        if bad_result(ctx, "next_k_array_walk", {"n": n, "k": k}, res):
+            continue
+        walk, ranks, ranks_jit = res[1]["walk"], res[1]["ranks"], res[1]["ranks_jit"]
+        cases.append(tup(zlit(n), zlit(k), zlist2(walk), zlist(ranks), zlist(ranks_jit)))
+        meta.append((n, k))
+        ctx.case(("walk", n, k), nontrivial=(len(walk) >= 2), sample={"next_k_array walk": [n, k], "first": walk[:3]})
+        ctx.count("walk:len=%d" % min(len(walk), 50) if len(walk) < 5 else "walk:len>=5")
+        # oracle: all k-subsets exactly once, in colexicographic (combinatorial number system) order
+        exp = sorted(itertools.combinations(range(n), k), key=lambda t: t[::-1])
+        if [tuple(w) for w in walk] != exp:
+            ctx.fail("next_k_array_walk", "walk is not all k-subsets once in colex order", {"n": n, "k": k}, walk[:10], exp[:10])
+        if ranks != list(range(len(exp))) or ranks_jit != ranks:
+            ctx.fail("k_array_rank", "rank is not the position in the walk", {"n": n, "k": k}, [ranks[:10], ranks_jit[:10]], None)
     ok = ("fun c => let '(n, k, walk, ranks, ranksj) := c in "
           "let w := k_walk (S (length walk)) n (zrange k) in "
           "Zss_eqb w walk && Zs_eqb (map k_array_rank w) ranks && Zs_eqb (map k_array_rank_jit w) ranksj")
@@ -88,48 +273,43 @@ def run(ctx):
         ctx.mismatch("C16.Model.k_walk/k_array_rank vs combinatorics.next_k_array/k_array_rank(_jit)", {"n": meta[i][0], "k": meta[i][1]})
     # single steps from arbitrary increasing arrays with large entries (ranks through comb_jit incl. overflow -> 0)
     cases, meta = [], []
-    for _ in range(300 if thorough else 120):
-        k = ctx.rng.randrange(1, 7)
-        top = ctx.rng.choice([12, 60, 2**20, 2**40])
-        a = sorted(ctx.rng.sample(range(top), k))
-        if ctx.rng.random() < 0.5:   # plant a run at the start so the inner loop executes
-            r = ctx.rng.randrange(1, k + 1)
-            a = list(range(a[0], a[0] + r)) + [x + a[0] + r + 1 for x in a[r:]]
-            a = sorted(set(a))
-            k = len(a)
-        arr = np.array(a, dtype=np.int64)
-        rj = int(k_array_rank_jit(arr))
-        nxt = [int(x) for x in next_k_array(arr.copy())]
+    exact_rank = lambda v: sum(math.comb(v[i], i + 1) for i in range(len(v)))
+    for a, res in zip(step_in, by_kind["nkstep"]):
+        if bad_result(ctx, "next_k_array_step", {"a": a}, res):
+            continue
+        k = len(a)
+        rj, nxt = res[1]["rj"], res[1]["nxt"]
         cases.append(tup(zlist(a), zlist(nxt), zlit(rj)))
         meta.append(a)
         ctx.case(("nk_step", tuple(a)), nontrivial=(k >= 2))
-        exact_rank = sum(math.comb(a[i], i + 1) for i in range(k))
-        if exact_rank <= INTP_MAX and all(math.comb(a[i], i + 1) <= INTP_MAX for i in range(k)):
-            pass  # jitted rank may legitimately contain 0 terms on overflow; checked against the model only
-        if sorted(nxt) != nxt or len(set(nxt)) != k:
+        ctx.count("nk_step:reset_prefix=%d" % next(i for i in range(k) if i + 1 == k or a[i] + 1 != a[i + 1]))
+        # oracle (the theorem itself, in exact integers): strictly increasing, non-negative, rank + 1
+        if sorted(nxt) != nxt or len(set(nxt)) != k or len(nxt) != k or nxt[0] < 0:
             ctx.fail("next_k_array_step", "successor not strictly increasing", {"a": a}, nxt, None)
+        elif exact_rank(nxt) != exact_rank(a) + 1:
+            ctx.fail("next_k_array_step", "rank(successor) != rank + 1", {"a": a}, nxt, None)
+        # jitted rank: exact whenever every binomial term is far below the overflow threshold
+        if all(a[i] < 2**20 for i in range(k)) and all(math.comb(a[i], i + 1) * (a[i] + 1) < INTP_MAX for i in range(1, k)) and rj != exact_rank(a):
+            ctx.fail("k_array_rank", "k_array_rank_jit differs from the exact rank although no product overflows", {"a": a}, rj, exact_rank(a))
     bad = ctx.coq_check("next_k_array_step", IMPORTS, "list Z * list Z * Z",
                         "fun c => let '(a, nxt, rj) := c in Zs_eqb (next_k_array a) nxt && Z.eqb (k_array_rank_jit a) rj", cases)
     for i in bad:
         ctx.mismatch("C16.Model.next_k_array/k_array_rank_jit (single step)", {"a": meta[i]})
 
-    # ---------------- simplex grid
-    mmax, nmax2 = (6, 8) if thorough else (5, 6)
+    # ================= simplex grid
     cases, meta = [], []
-    for m in range(1, mmax + 1):
-        for n in range(0, nmax2 + 1):
-            g = simplex_grid(m, n)
-            rows = [[int(x) for x in r] for r in g]
-            idxs = [int(simplex_index(np.array(r), m, n)) for r in rows]
-            L = int(num_compositions(m, n)); Lj = int(num_compositions_jit(m, n))
-            cases.append(tup(zlit(m), zlit(n), zlist2(rows), zlist(idxs), zlit(L), zlit(Lj)))
-            meta.append((m, n))
-            ctx.case(("simplex", m, n), nontrivial=(len(rows) >= 2), sample={"simplex_grid": [m, n], "rows": rows[:4]})
-            exp = sorted(c for c in itertools.product(range(n + 1), repeat=m) if sum(c) == n)
-            if [tuple(r) for r in rows] != exp:
-                ctx.fail("simplex_grid", "not all compositions once in lexicographic order", {"m": m, "n": n}, rows[:10], exp[:10])
-            if idxs != list(range(len(exp))) or L != len(exp) or Lj != len(exp):
-                ctx.fail("simplex_index", "simplex_index/num_compositions not inverse/length", {"m": m, "n": n}, [idxs[:10], L, Lj], len(exp))
+    for (m, n), res in zip(simplex_in, by_kind["simplex"]):
+        if bad_result(ctx, "simplex_grid", {"m": m, "n": n}, res):
+            continue
+        rows, idxs, L, Lj = res[1]["rows"], res[1]["idxs"], res[1]["L"], res[1]["Lj"]
+        cases.append(tup(zlit(m), zlit(n), zlist2(rows), zlist(idxs), zlit(L), zlit(Lj)))
+        meta.append((m, n))
+        ctx.case(("simplex", m, n), nontrivial=(len(rows) >= 2), sample={"simplex_grid": [m, n], "rows": rows[:4]})
+        exp = sorted(c for c in itertools.product(range(n + 1), repeat=m) if sum(c) == n)
+        if [tuple(r) for r in rows] != exp:
+            ctx.fail("simplex_grid", "not all compositions once in lexicographic order", {"m": m, "n": n}, rows[:10], exp[:10])
+        if idxs != list(range(len(exp))) or L != len(exp) or Lj != len(exp):
+            ctx.fail("simplex_index", "simplex_index/num_compositions not inverse/length", {"m": m, "n": n}, [idxs[:10], L, Lj], len(exp))
     ok = ("fun c => let '(m, n, rows, idxs, L, Lj) := c in "
           "opt_eqb Zss_eqb (simplex_grid m n) (Some rows) && Zs_eqb (map (fun x => simplex_index x m n) rows) idxs "
           "&& Z.eqb (num_compositions m n) L && Z.eqb (num_compositions_jit m n) Lj")
@@ -137,84 +317,81 @@ def run(ctx):
     for i in bad:
         ctx.mismatch("C16.Model.simplex_grid/simplex_index vs _gridtools", {"m": meta[i][0], "n": meta[i][1]})
 
-    # ---------------- cartesian / mlinspace / _cartesian_index
-    dmax, pmax = (4, 5) if thorough else (3, 4)
-    shapes_all = [s for d in range(1, dmax + 1) for s in itertools.product(range(1, pmax + 1), repeat=d)]
-    if not thorough:
-        shapes_all = [s for s in shapes_all if ctx.rng.random() < 0.6 or len(s) <= 2]
+    # ================= cartesian / mlinspace / _cartesian_index
     cases, meta = [], []
-    for shp in shapes_all:
-        nodes = []
-        base = 0
-        for s in shp:
-            pts = sorted(ctx.rng.sample(range(-20, 21), s))
-            nodes.append(pts)
-        for order in "CF":
-            out = cartesian([np.array(p) for p in nodes], order=order)
-            rows = [[int(x) for x in r] for r in out]
-            cases.append(tup(blit(order == "F"), zlist2(nodes), zlist2(rows)))
-            meta.append((shp, order))
-            ctx.case(("cartesian", shp, order, tuple(map(tuple, nodes))), nontrivial=(len(rows) >= 2))
-            if order == "C":
-                exp = [list(t) for t in itertools.product(*nodes)]
-            else:
-                exp = [list(t[::-1]) for t in itertools.product(*nodes[::-1])]
-            if rows != exp:
-                ctx.fail("cartesian", "not the full product grid in %s order" % order, {"nodes": nodes, "order": order}, rows[:8], exp[:8])
+    for (nodes, order), res in zip(cart_in, by_kind["cartesian"]):
+        shp = tuple(len(g) for g in nodes)
+        if bad_result(ctx, "cartesian", {"nodes": nodes, "order": order}, res):
+            continue
+        rows = res[1]["rows"]
+        cases.append(tup(blit(order == "F"), zlist2(nodes), zlist2(rows)))
+        meta.append((shp, order))
+        ctx.case(("cartesian", shp, order, tuple(map(tuple, nodes))), nontrivial=(len(rows) >= 2))
+        if order == "C":
+            exp = [list(t) for t in itertools.product(*nodes)]
+        else:
+            exp = [list(t[::-1]) for t in itertools.product(*nodes[::-1])]
+        if rows != exp:
+            ctx.fail("cartesian", "not the full product grid in %s order" % order, {"nodes": nodes, "order": order}, rows[:8], exp[:8])
     bad = ctx.coq_check("cartesian", IMPORTS, "bool * list (list Z) * list (list Z)",
                         "fun c => let '(f, nodes, rows) := c in Zss_eqb (cartesian 0%Z f nodes) rows", cases, chunk=40)
     for i in bad:
         ctx.mismatch("C16.Model.cartesian vs _gridtools.cartesian", {"shape": meta[i][0], "order": meta[i][1]})
     # mlinspace is cartesian of linspace nodes: check shape/order on dyadic data through the oracle only
-    for _ in range(20):
-        d = ctx.rng.randrange(1, 4)
-        nums = [ctx.rng.choice([1, 2, 3, 5]) for _ in range(d)]
-        a = [ctx.rng.randrange(-4, 4) for _ in range(d)]
-        b = [a[i] + (nums[i] - 1) * ctx.rng.choice([1, 2, 4]) if nums[i] > 1 else a[i] for i in range(d)]
-        for order in "CF":
-            out = mlinspace(a, b, nums, order=order)
-            nodes = [[a[i] + (b[i] - a[i]) * j / (nums[i] - 1) if nums[i] > 1 else a[i] for j in range(nums[i])] for i in range(d)]
-            exp = [list(t) for t in itertools.product(*nodes)] if order == "C" else [list(t[::-1]) for t in itertools.product(*nodes[::-1])]
-            ctx.case(("mlinspace", tuple(a), tuple(b), tuple(nums), order), nontrivial=True)
-            if out.tolist() != exp:
-                ctx.fail("mlinspace", "mlinspace is not the product grid", {"a": a, "b": b, "nums": nums, "order": order}, out.tolist()[:8], exp[:8])
-
-    # ---------------- cartesian_nearest_index (dyadic data: float arithmetic exact, model runs over Q)
+    for (a, b, nums, order), res in zip(ml_in, by_kind["mlinspace"]):
+        if bad_result(ctx, "mlinspace", {"a": a, "b": b, "nums": nums, "order": order}, res):
+            continue
+        d = len(nums)
+        nodes = [[a[i] + (b[i] - a[i]) * j / (nums[i] - 1) if nums[i] > 1 else a[i] for j in range(nums[i])] for i in range(d)]
+        exp = [list(t) for t in itertools.product(*nodes)] if order == "C" else [list(t[::-1]) for t in itertools.product(*nodes[::-1])]
+        ctx.case(("mlinspace", tuple(a), tuple(b), tuple(nums), order), nontrivial=True)
+        if res[1]["rows"] != exp:
+            ctx.fail("mlinspace", "mlinspace is not the product grid", {"a": a, "b": b, "nums": nums, "order": order}, res[1]["rows"][:8], exp[:8])
+    # _cartesian_index directly: mixed-radix value (oracle: numpy's own ravel_multi_index, C order)
     cases, meta = [], []
-    for _ in range(700 if thorough else 250):
-        d = ctx.rng.randrange(1, 5 if thorough else 4)
-        nodes = []
-        for _i in range(d):
-            s = ctx.rng.randrange(1, 6)
-            pts = sorted(ctx.rng.sample(range(-16, 17), s))
-            nodes.append([p / 4.0 for p in pts])
-        x = []
-        for g in nodes:
-            mode = ctx.rng.randrange(5)
-            if mode == 0:
-                x.append(ctx.rng.choice(g))
-            elif mode == 1 and len(g) > 1:
-                i = ctx.rng.randrange(len(g) - 1)
-                x.append((g[i] + g[i + 1]) / 2)           # exactly on a midpoint
-            elif mode == 2:
-                x.append(g[0] - ctx.rng.randrange(0, 3) / 8.0)
-            elif mode == 3:
-                x.append(g[-1] + ctx.rng.randrange(0, 3) / 8.0)
-            else:
-                x.append(ctx.rng.randrange(-160, 161) / 32.0)
-        for order in "CF":
-            idx = int(cartesian_nearest_index(np.array(x), tuple(np.array(g) for g in nodes), order=order))
-            cases.append(tup(blit(order == "F"), qlist2(nodes), qlist(x), zlit(idx)))
-            meta.append((nodes, x, order))
-            ctx.case(("nearest", tuple(map(tuple, nodes)), tuple(x), order), nontrivial=(max(len(g) for g in nodes) >= 2),
-                     sample={"nearest": {"nodes": nodes, "x": x, "order": order}, "impl": idx})
-            grid = cartesian([np.array(g) for g in nodes], order=order)
-            if not (0 <= idx < len(grid)):
-                ctx.fail("nearest_index_range", "index outside the grid", {"nodes": nodes, "x": x, "order": order}, idx, None)
-                continue
-            dist = [sum((frac(p) - frac(q)) ** 2 for p, q in zip(row, x)) for row in grid.tolist()]
-            if dist[idx] != min(dist):
-                ctx.fail("nearest_index", "returned grid point is not at minimum distance", {"nodes": nodes, "x": x, "order": order}, idx, dist.index(min(dist)))
+    for (ind, nums), res in zip(ci_in, by_kind["cindex"]):
+        if bad_result(ctx, "cartesian_index", {"indices": ind, "nums": nums}, res):
+            continue
+        idx = res[1]["idx"]
+        cases.append(tup(zlist(ind), zlist(nums), zlit(idx)))
+        meta.append((ind, nums))
+        ctx.case(("cindex", tuple(ind), tuple(nums)), nontrivial=(len(nums) >= 2 and max(nums) >= 2))
+        exp = int(np.ravel_multi_index(tuple(ind), tuple(nums)))
+        if idx != exp:
+            ctx.fail("cartesian_index", "_cartesian_index is not the mixed-radix number of the index vector", {"indices": ind, "nums": nums}, idx, exp)
+    bad = ctx.coq_check("cartesian_index", IMPORTS, "list Z * list Z * Z",
+                        "fun c => let '(ind, nums, idx) := c in Z.eqb (cartesian_index ind nums) idx", cases)
+    for i in bad:
+        ctx.mismatch("C16.Model.cartesian_index vs _gridtools._cartesian_index", {"indices": meta[i][0], "nums": meta[i][1]})
+
+    # ================= cartesian_nearest_index (dyadic data: float arithmetic exact, model runs over Q)
+    cases, meta = [], []
+    ties = 0
+    for (nodes, x, order), res in zip(near_in, by_kind["nearest"]):
+        inp = {"nodes": nodes, "x": x, "order": order}
+        if bad_result(ctx, "nearest_index", inp, res):
+            continue
+        idx = res[1]["idx"]
+        cases.append(tup(blit(order == "F"), qlist2(nodes), qlist(x), zlit(idx)))
+        meta.append((nodes, x, order))
+        ctx.case(("nearest", tuple(map(tuple, nodes)), tuple(x), order), nontrivial=(max(len(g) for g in nodes) >= 2),
+                 sample={"nearest": inp, "impl": idx})
+        grid = (list(itertools.product(*nodes)) if order == "C" else [t[::-1] for t in itertools.product(*nodes[::-1])])
+        if not (0 <= idx < len(grid)):
+            ctx.fail("nearest_index_range", "index outside the grid", inp, idx, None)
+            continue
+        dist = [sum((frac(p) - frac(q)) ** 2 for p, q in zip(row, x)) for row in grid]
+        if dist[idx] != min(dist):
+            ctx.fail("nearest_index", "returned grid point is not at minimum distance", inp, idx, dist.index(min(dist)))
+            continue
+        # documented tie rule: among equidistant nodes of a coordinate the lower one
+        low = tuple(min(range(len(g)), key=lambda j: (abs(frac(g[j]) - frac(xi)), j)) for g, xi in zip(nodes, x))
+        tie = any(sum(1 for gj in g if abs(frac(gj) - frac(xi)) == min(abs(frac(t) - frac(xi)) for t in g)) > 1 for g, xi in zip(nodes, x))
+        ties += tie
+        want = tuple(g[j] for g, j in zip(nodes, low))
+        if tuple(grid[idx]) != want:
+            ctx.fail("nearest_index_tie", "equidistant nodes: not resolved to the lower neighbour", inp, idx, grid.index(want))
+    ctx.count("nearest:cases_with_tie", ties)
     bad = ctx.coq_check("cartesian_nearest_index", IMPORTS, "bool * list (list Q) * list Q * Z",
                         "fun c => let '(f, nodes, x, idx) := c in Z.eqb (cartesian_nearest_index f nodes x) idx", cases, chunk=150)
     for i in bad:
@@ -223,12 +400,43 @@ def run(ctx):
 
 
 def replay(data):
-    """Re-run the first recorded failing input against the current implementation."""
-    from quantecon.util.numba import comb_jit
+    """Re-run the first recorded failing input against the current implementation and print what the oracle compares."""
     first = data.get("first") or (data.get("mismatches") or [{}])[0]
     print("replay:", json.dumps(first)[:2000])
     inp = first.get("input", {})
-    if "N" in inp and "k" in inp:
-        print("comb_jit(%d,%d) = %d; math.comb = %s" % (inp["N"], inp["k"], comb_jit(inp["N"], inp["k"]),
-              math.comb(inp["N"], inp["k"]) if 0 <= inp["k"] <= inp["N"] else 0))
+    try:
+        if "N" in inp and "k" in inp:
+            from quantecon.util.numba import comb_jit
+            print("comb_jit(%d,%d) = %d; math.comb = %s" % (inp["N"], inp["k"], comb_jit(inp["N"], inp["k"]),
+                  math.comb(inp["N"], inp["k"]) if 0 <= inp["k"] <= inp["N"] else 0))
+        elif "m" in inp and "n" in inp:
+            r = impl_job("simplex", [inp["m"], inp["n"]])
+            exp = sorted(c for c in itertools.product(range(inp["n"] + 1), repeat=inp["m"]) if sum(c) == inp["n"])
+            print("simplex_grid rows:", r["rows"][:12], "\nexpected (lexicographic):", exp[:12], "\nsimplex_index:", r["idxs"][:12])
+        elif "n" in inp and "k" in inp:
+            r = impl_job("walk", [inp["n"], inp["k"]])
+            exp = sorted(itertools.combinations(range(inp["n"]), inp["k"]), key=lambda t: t[::-1])
+            print("walk:", r["walk"][:12], "\nexpected (colex):", exp[:12], "\nranks:", r["ranks"][:12], r["ranks_jit"][:12])
+        elif "indices" in inp:
+            r = impl_job("cindex", [inp["indices"], inp["nums"]])
+            print("_cartesian_index =", r["idx"], "ravel_multi_index =", int(np.ravel_multi_index(tuple(inp["indices"]), tuple(inp["nums"]))))
+        elif "x" in inp and "nodes" in inp:
+            r = impl_job("nearest", [inp["nodes"], inp["x"], inp["order"]])
+            print("cartesian_nearest_index =", r["idx"], " expected:", first.get("expected"))
+        elif "nodes" in inp:
+            r = impl_job("cartesian", [inp["nodes"], inp["order"]])
+            print("cartesian rows:", r["rows"][:12])
+        elif "nums" in inp:
+            r = impl_job("mlinspace", [inp["a"], inp["b"], inp["nums"], inp["order"]])
+            print("mlinspace rows:", r["rows"][:12])
+        elif "a" in inp:
+            r = impl_job("nkstep", inp["a"])
+            print("next_k_array(%s) = %s, k_array_rank_jit = %d, exact rank = %d" % (
+                inp["a"], r["nxt"], r["rj"], sum(math.comb(v, i + 1) for i, v in enumerate(inp["a"]))))
+    except Exception as e:
+        print("implementation raised:", repr(e))
     return 0
+
+
+if __name__ == "__main__" and len(sys.argv) >= 4 and sys.argv[1] == "--worker":
+    sys.exit(worker(sys.argv[2], sys.argv[3]))
